@@ -183,6 +183,7 @@ func (c *vacCase) run() {
 		marks = append(marks, time.Now())
 		time.Sleep(300 * time.Microsecond)
 	}
+	var lateCuts []time.Time
 	steps := 4 + c.r.Intn(14)
 	for s := 0; s < steps; s++ {
 		i := c.r.Intn(nw)
@@ -198,6 +199,8 @@ func (c *vacCase) run() {
 			tick()
 			delAt := marks[len(marks)-1]
 			tick()
+			// a cutoff here lies after the row's delete time and before its latest write time
+			lateCuts = append(lateCuts, marks[len(marks)-1])
 			sqlh.Exec(db, fmt.Sprintf(`update "%s" set a='later' where k=?`, t), k)
 			sqlh.Exec(db, "update s3db_conn set write_time=?", delAt.UTC().Format("2006-01-02 15:04:05.000000000"))
 			sqlh.Exec(db, fmt.Sprintf(`delete from "%s" where k=?`, t), k)
@@ -285,9 +288,12 @@ func (c *vacCase) run() {
 	tick()
 	var cutoff time.Time
 	switch pick := c.r.Intn(6); {
-	case !between.IsZero() && (cachedReturn || pick < 4):
+	case !between.IsZero() && (cachedReturn || pick < 3):
 		cutoff = between
 		c.st.Count("cutoff_between_last_insert_and_delete")
+	case len(lateCuts) > 0 && (pick == 3 || pick == 4):
+		cutoff = gen.Pick(c.r, lateCuts)
+		c.st.Count("cutoff_between_delete_time_and_latest_write")
 	case pick == 0:
 		cutoff = time.Date(2000, 1, 1, 0, 0, 0, 0, time.UTC)
 		c.st.Count("cutoff_past")
